@@ -1,6 +1,6 @@
 (* Property C20 - statements only.  Every theorem is closed by [exact] of a lemma from
-   Proofs/Keyspace_proofs.v; the statements are pinned again in /verif/pins/C20.v. *)
-From SV Require Import Base.Prelude Model.Keyspace Proofs.Keyspace_proofs.
+   Proofs/Keyspace_proofs.v or Proofs/C20_d4_proofs.v; the statements are pinned again in /verif/pins/C20.v. *)
+From SV Require Import Base.Prelude Model.Keyspace Proofs.Keyspace_proofs Proofs.C20_d4_proofs.
 Open Scope nat_scope.
 
 (* ---- names ------------------------------------------------------------------------------- *)
@@ -296,6 +296,79 @@ Proof. exact prop_viol_not_accepted. Qed.
 Theorem C20_valid_nameb : forall s, valid_nameb s = true <-> valid_name s.
 Proof. exact valid_nameb_spec. Qed.
 
+(* ---- deepening round 4: the extracted functions no theorem mentioned, and full-strength forms ---- *)
+
+(* [make_verified] (VerifiedKeyspaceName::new; the driver's N / V cases and its filter of the requested
+   names): Ok exactly for valid names, with the name and the flag stored unchanged; otherwise the error of
+   [verify_name] (C20_name_err); it fails iff the name is not valid *)
+Theorem C20_make_verified : forall s cs,
+  (forall k, make_verified s cs = Ok k <-> valid_name s /\ k = (s, cs)) /\
+  (forall e, make_verified s cs = Err e <-> verify_name s = Err e) /\
+  ((exists e, make_verified s cs = Err e) <-> ~ valid_name s).
+Proof. exact make_verified_spec. Qed.
+
+(* the boolean the driver evaluates before it says `viol` in a V case ([valid_nameb s && eq_ci n s] for a
+   SetKeyspace answer, false otherwise) is the model's success on that connection, for every name that
+   passes validation; for every other name it is false *)
+Theorem C20_driver_v_spec : forall s cs k r,
+  make_verified s cs = Ok k ->
+  (verify_result k r = VOk <-> exists n, r = RSetKeyspace n /\ valid_nameb s && eq_ci n s = true).
+Proof. exact driver_v_spec. Qed.
+
+Theorem C20_driver_v_spec_invalid : forall s n, ~ valid_name s -> valid_nameb s && eq_ci n s = false.
+Proof. exact driver_v_spec_invalid. Qed.
+
+(* [eq_ci] (str::eq_ignore_ascii_case) is an equivalence relation *)
+Theorem C20_eq_ci_equiv :
+  (forall a, eq_ci a a = true) /\
+  (forall a b, eq_ci a b = true -> eq_ci b a = true) /\
+  (forall a b c, eq_ci a b = true -> eq_ci b c = true -> eq_ci a c = true).
+Proof. exact eq_ci_equiv. Qed.
+
+(* the acceptor is prefix-closed: every prefix of an accepted trace is accepted *)
+Theorem C20_accept_prefix : forall k0 t1 t2, accept_trace k0 (t1 ++ t2) = true -> accept_trace k0 t1 = true.
+Proof. exact accept_prefix. Qed.
+
+(* [first_reject] (the `event=<i>` of the driver's report): None iff the trace is accepted; Some j iff j is
+   the position of the first rejected event - the prefix before it is accepted, the prefix with it is not *)
+Theorem C20_first_reject : forall k0 tr,
+  (first_reject (acc_init k0) tr 0 = None <-> accept_trace k0 tr = true) /\
+  (forall j, first_reject (acc_init k0) tr 0 = Some j <->
+     exists pre e post, tr = pre ++ e :: post /\ j = List.length pre /\
+                        accept_trace k0 pre = true /\ accept_trace k0 (pre ++ [e]) = false).
+Proof. exact first_reject_spec. Qed.
+
+(* [text_verdict]: TOk iff the text is the model's text of a requested valid name; TDiff iff it is not but
+   is harmless (C20_text_harmless_iff); TViol: C20_text_viol_iff *)
+Theorem C20_text_ok_iff : forall callk t,
+  text_verdict callk t = TOk <-> exists k, In k callk /\ t = use_statement k.
+Proof. exact text_verdict_ok_iff. Qed.
+
+Theorem C20_text_diff_iff : forall callk t,
+  text_verdict callk t = TDiff <->
+  (forall k, In k callk -> t <> use_statement k) /\ harmless (map fst callk) t = true.
+Proof. exact text_verdict_diff_iff. Qed.
+
+(* [texts_verdict] (what the driver calls on all texts of a scenario): TOk iff every text is the model's text
+   of a requested valid name; otherwise verdict and text of the FIRST text that is not *)
+Theorem C20_texts_verdict : forall callk ts,
+  (fst (texts_verdict callk ts) = TOk <->
+   forall t, In t ts -> exists k, In k callk /\ t = use_statement k) /\
+  (forall v t, v <> TOk ->
+     (texts_verdict callk ts = (v, t) <->
+      exists pre post, ts = pre ++ t :: post /\
+        (forall t', In t' pre -> exists k, In k callk /\ t' = use_statement k) /\
+        text_verdict callk t = v)).
+Proof. exact texts_verdict_spec. Qed.
+
+(* a violation stays a violation however the trace continues *)
+Theorem C20_viol_ext : forall t1 t2, prop_violb t1 = true -> prop_violb (t1 ++ t2) = true.
+Proof. exact prop_violb_ext. Qed.
+
+(* [prop_violb] is silent on every trace without a call that returned Ok *)
+Theorem C20_viol_needs_ok : forall tr, prop_violb tr = true -> exists u, In (ERet u true) tr.
+Proof. exact prop_violb_needs_ok. Qed.
+
 (* non-vacuity *)
 Example C20_ex_names :
   verify_name [97; 95; 90; 48]%N = Ok tt /\ verify_name [] = Err NEmpty /\
@@ -489,6 +562,25 @@ Example C20_ex_anchor_trace :
   accept_trace None [ECall 0 (ex_ks, false); ECall 1 (ex_ks, false); ERet 0 false; ERet 1 true; EStart 2; EFrame 2 None] = true.
 Proof. repeat split; vm_compute; reflexivity. Qed.
 
+(* non-vacuity of the round-4 theorems: concrete inputs meeting their hypotheses / both sides *)
+Example C20_ex_d4 :
+  make_verified ex_ks true = Ok (ex_ks, true) /\
+  make_verified [107; 59]%N false = Err (NIllegal 59%N) /\
+  verify_result (ex_ks, true) (RSetKeyspace [75; 83]%N) = VOk /\
+  valid_nameb ex_ks && eq_ci [75; 83]%N ex_ks = true /\
+  accept_trace None ([ECall 0 (ex_ks, false); ERet 0 true] ++ [EStart 2; EFrame 2 (Some ex_ks)]) = true /\
+  first_reject (acc_init None) [ECall 0 (ex_ks, false); ERet 0 true; EStart 2; EFrame 2 None; EStart 3] 0 = Some 3 /\
+  accept_trace None [ECall 0 (ex_ks, false); ERet 0 true; EStart 2] = true /\
+  accept_trace None ([ECall 0 (ex_ks, false); ERet 0 true; EStart 2] ++ [EFrame 2 None]) = false /\
+  first_reject (acc_init None) [ECall 0 (ex_ks, false); ERet 0 true; EStart 2; EFrame 2 (Some ex_ks)] 0 = None /\
+  texts_verdict [(ex_ks, false)] [[85; 83; 69; 32; 107; 115]; [85; 83; 69; 32; 107; 115]]%N = (TOk, []) /\
+  texts_verdict [(ex_ks, false)] [[85; 83; 69; 32; 107; 115]; [85; 83; 69; 32; 107; 115; 45; 45]; [107; 115]]%N
+    = (TViol, [85; 83; 69; 32; 107; 115; 45; 45]%N) /\
+  prop_violb [ECall 0 (ex_ks, false); ERet 0 true; EStart 1; EFrame 1 None] = true /\
+  prop_violb ([ECall 0 (ex_ks, false); ERet 0 true; EStart 1; EFrame 1 None] ++ [ECall 1 (ex_ks, false); EFrame 1 (Some ex_ks)]) = true /\
+  prop_violb [ECall 0 (ex_ks, false); ERet 0 false; EStart 1; EFrame 1 None; ERet 7 false] = false.
+Proof. repeat split; vm_compute; reflexivity. Qed.
+
 Print Assumptions C20_name.
 Print Assumptions C20_name_err.
 Print Assumptions C20_statement.
@@ -524,3 +616,14 @@ Print Assumptions C20_viol_complete.
 Print Assumptions C20_viol_rejected.
 Print Assumptions C20_after_success_exact.
 Print Assumptions C20_valid_nameb.
+Print Assumptions C20_make_verified.
+Print Assumptions C20_driver_v_spec.
+Print Assumptions C20_driver_v_spec_invalid.
+Print Assumptions C20_eq_ci_equiv.
+Print Assumptions C20_accept_prefix.
+Print Assumptions C20_first_reject.
+Print Assumptions C20_text_ok_iff.
+Print Assumptions C20_text_diff_iff.
+Print Assumptions C20_texts_verdict.
+Print Assumptions C20_viol_ext.
+Print Assumptions C20_viol_needs_ok.
